@@ -705,9 +705,12 @@ def sequence_of_docs(ctx, left, docs, right, dangle=False, force_break=False):
         if is_commented(doc):
             comment_str = doc.annotation.value
             # Try to fit the comment at the end of the same line.
+            # The dangling comma (one-element tuple) must come
+            # before an end-of-line comment, not after it.
+            needs_comma = not last or dangle
             flat_version = concat([
                 doc,
-                COMMA if not last else NIL,
+                COMMA if needs_comma else NIL,
                 '  ',
                 commentdoc(comment_str),
                 HARDLINE if not last else NIL
@@ -719,7 +722,7 @@ def sequence_of_docs(ctx, left, docs, right, dangle=False, force_break=False):
                 commentdoc(comment_str),
                 HARDLINE,
                 doc,
-                COMMA if not last else NIL,
+                COMMA if needs_comma else NIL,
                 HARDLINE if not last else NIL
             ])
             parts.append(
@@ -737,7 +740,7 @@ def sequence_of_docs(ctx, left, docs, right, dangle=False, force_break=False):
                     concat([COMMA, LINE])
                 )
 
-    if dangle:
+    if dangle and not (docs and is_commented(docs[-1])):
         parts.append(COMMA)
 
     outer = (
